@@ -89,6 +89,13 @@ HARNESSES = [
     for tag, d, tl, nc in [("pm2code", ["ELEM8", "TL=65", "NC=31"], 65, 31), ("lhtemp", ["TL=62", "NC=31"], 62, 31)]
 ]
 
+HARNESSES += [
+    dict(name="decread.b%d" % b, src="C09/decread.c", defines=["BUFLEN=%d" % b], mode="safety", unwind=8, unwindset={"lha_decoder_read.0": b + 3, "lha_crc16_buf.0": b + 2, "verif_memcpy.0": 5},
+         extra_srcs=["lib/crc16.c"], optional_witnesses=True, units=["lib/lha_decoder.c:lha_decoder_read"], timeout=300, mem_gb=4,
+         bounds="arbitrary bookkeeping state satisfying Inv (max_read 3), caller buffer object of exactly %d bytes, method read() returning any count <= max_read per call" % b,
+         stubs=["method read(): arbitrary count <= max_read (per-decoder harnesses prove that contract)", "memcpy: byte loop"])
+    for b in (0, 1, 4, 6)]
+
 # parts built separately (lh1: plan/C09_lh1.py, lh_new family: plan/C09_lhnew.py)
 try:
     from C09_lh1 import HARNESSES_LH1
